@@ -159,6 +159,7 @@ func (c *Ctx) kernel(name string, inline ...string) *Result {
 		}
 		return set[callee]
 	}
+	en.Excluded = excl
 	res, err := en.Run(fn)
 	c.Engines = append(c.Engines, en)
 	if err != nil {
